@@ -129,6 +129,18 @@ reg(
     "DESIGN.md 5/C15",
 )
 
+reg(
+    "C13",
+    "explicit-state BFS over operation histories (fit / partial_fit / predict over 4 data sets, depth 3-4) on one real estimator object, differential oracle against a fresh object driven through the documented suffix; BFS over query/update histories for stream subjects (get_params invariance)",
+    "Every history up to the depth bound is executed on deep copies of real estimator objects (incl. symbolic defaults such as "
+    "gamma='mean' and metric_dict=None and caller-owned dict parameters); after every transition get_params(deep=True) and the caller's "
+    "dicts are fingerprinted, predictions are compared with a fresh object replaying only the documented history, and the "
+    "sliding-window classifier with a reference list model; stream strategies and budget managers are checked for parameter "
+    "invariance under every query/update transition.",
+    "4 data sets, depth 3 (quick) / 4 (thorough); the static AST scan of parameter writes is steering evidence only.",
+    "DESIGN.md 5/C13",
+)
+
 
 def main():
     props = [json.loads(l) for l in open(os.path.join(HOME, "properties.jsonl"))]
